@@ -232,16 +232,26 @@ REGEX_PATTERN = {'a': 'a', 'dot': '.', '^a': '^a', 'a$': 'a$', 'a|b': 'a|b', '[a
 _REPLACE_LITERAL = {'a': 'a', 'b': 'b', 'ab': 'ab', '\\.': '.'}
 
 
-def ref_replace_in(rx: str, repl: str, s: str) -> str:
-    """`s` with every part matching regex `rx` replaced by `repl` (repl free of backslashes)."""
-    if rx in _REPLACE_LITERAL:
-        lit = _REPLACE_LITERAL[rx]
+def ref_contains(s: str, lit: str) -> bool:
+    """lit occurs in s (lit non-empty); decided position by position, see same_str"""
+    ll = len(lit)
+    for i in range(len(s) - ll + 1):
+        if same_str(s[i:i + ll], lit):
+            return True
+    return False
+
+
+def ref_replace_in(rx: str, repl: str, s: str, lit_of_symbol: str = '') -> str:
+    """`s` with every part matching regex `rx` replaced by `repl` (repl free of backslashes).
+    rx == 'E': the regex is the non-empty literal string lit_of_symbol."""
+    if rx in _REPLACE_LITERAL or rx == 'E':
+        lit = lit_of_symbol if rx == 'E' else _REPLACE_LITERAL[rx]
         out = []
         i = 0
         n = len(s)
         ll = len(lit)
         while i < n:
-            if s[i:i + ll] == lit:
+            if same_str(s[i:i + ll], lit):
                 out.append(repl)
                 i += ll
             else:
@@ -308,6 +318,9 @@ def ref_matcher(t, s: str, env: Env) -> bool:
     if k == 'equals-lit':
         return s == t[1]
     if k == 'matches':
+        if t[2] == 'E':
+            # REGEX = @[E]@, E a non-empty string of the literal characters a / b
+            return same_str(s, env.e) if t[1] else ref_contains(s, env.e)
         _, search, full = REGEXES[t[2]]
         return full(s) if t[1] else search(s)
     if k == 'numlines':
@@ -363,9 +376,9 @@ def ref_transformer(t, s: str, env: Env) -> str:
             if sel is not None and not ref_line_matcher(sel, n, ref_line_contents(line), env):
                 out.append(line)
             elif preserve and line.endswith('\n'):
-                out.append(ref_replace_in(rx, repl_s, line[:len(line) - 1]) + '\n')
+                out.append(ref_replace_in(rx, repl_s, line[:len(line) - 1], env.e) + '\n')
             else:
-                out.append(ref_replace_in(rx, repl_s, line))
+                out.append(ref_replace_in(rx, repl_s, line, env.e))
         return ''.join(out)
     if k == 'filter':
         out = []
@@ -376,6 +389,8 @@ def ref_transformer(t, s: str, env: Env) -> str:
                 out.append(line)
         return ''.join(out)
     if k == 'grep':
+        if t[1] == 'E':
+            return ''.join([line for line in ref_lines(s) if ref_contains(ref_line_contents(line), env.e)])
         search = REGEXES[t[1]][1]
         return ''.join([line for line in ref_lines(s) if search(ref_line_contents(line))])
     if k == 'seq':
@@ -417,7 +432,7 @@ def render_matcher(t, simple: bool = False) -> str:
     if k == 'equals-lit':
         return 'equals ' + _quote(t[1])
     if k == 'matches':
-        return 'matches ' + ('-full ' if t[1] else '') + REGEXES[t[2]][0]
+        return 'matches ' + ('-full ' if t[1] else '') + ('@[E]@' if t[2] == 'E' else REGEXES[t[2]][0])
     if k == 'numlines':
         return 'num-lines %s K0' % t[1]
     if k == 'every':
@@ -454,13 +469,13 @@ def render_transformer(t, simple: bool = False) -> str:
             parts += ['-at', render_line_matcher(sel, True)]
         if preserve:
             parts.append('-preserve-new-lines')
-        parts.append(REGEXES[rx][0] if rx in REGEXES else rx)
+        parts.append('@[E]@' if rx == 'E' else REGEXES[rx][0] if rx in REGEXES else rx)
         parts.append('@[E]@' if repl == 'E' else _quote(repl))
         return ' '.join(parts)
     if k == 'filter':
         return 'filter ' + render_line_matcher(t[1], True)
     if k == 'grep':
-        return 'grep ' + REGEXES[t[1]][0]
+        return 'grep ' + ('@[E]@' if t[1] == 'E' else REGEXES[t[1]][0])
     if k == 'seq':
         r = ' | '.join(render_transformer(x, True) for x in t[1:])
         return '( ' + r + ' )' if simple else r
@@ -474,7 +489,14 @@ def uses(t, kind: str) -> bool:
     if kind == 'E':
         if t[0] == 'equals':
             return True
-        if t[0] == 'replace' and t[4] == 'E':
+        if t[0] == 'replace' and (t[4] == 'E' or t[3] == 'E'):
+            return True
+        if t[0] == 'matches' and t[2] == 'E':
+            return True
+        if t[0] == 'grep' and t[1] == 'E':
+            return True
+    elif kind == 'RE':  # a REGEX that is given by the symbol E
+        if (t[0] == 'replace' and t[3] == 'E') or (t[0] == 'matches' and t[2] == 'E') or (t[0] == 'grep' and t[1] == 'E'):
             return True
     elif t[0] == kind:
         return True
@@ -552,6 +574,43 @@ def real_transformer(tree, env: Env, log: Optional[List] = None):
                            render_transformer(tree))
     ddv = sdv.resolve(symbols(env, log))
     return ddv.value_of_any_dependency(None).primitive(app_env())
+
+
+def untraced():
+    """Context manager: suspends CrossHair's tracing (for all-CONCRETE work such as parsing concrete
+    syntax, ~200x faster); a no-op on plain CPython (replay, self-test)."""
+    import contextlib
+    try:
+        from crosshair.tracers import NoTracing, is_tracing
+    except ImportError:
+        return contextlib.nullcontext()
+    return NoTracing() if is_tracing() else contextlib.nullcontext()
+
+
+def parse_fresh(tree, is_matcher: bool):
+    """A NEW parsed object (sdv) of the expression - never shared between paths or with other
+    obligations, so that what a path sees of it is exactly what a fresh process (the replay) sees."""
+    from exactly_lib.section_document.element_parsers.token_stream_parser import new_token_parser
+    with untraced():
+        if is_matcher:
+            from exactly_lib.impls.types.string_matcher import parse_string_matcher
+            parser, source = parse_string_matcher.parsers(False).full, render_matcher(tree)
+        else:
+            from exactly_lib.impls.types.string_transformer import parse_string_transformer
+            parser, source = parse_string_transformer.parsers(False).full, render_transformer(tree)
+        tp = new_token_parser(source)
+        sdv = parser.parse_from_token_parser(tp)
+        if tp.token_stream.remaining_source.strip() != '':
+            raise ValueError('harness error: parser left %r unconsumed' % tp.token_stream.remaining_source)
+    return sdv
+
+
+def resolve(sdv, env: Env):
+    """one resolving of a parsed object, as an instruction does it per test case:
+    sdv -> ddv (symbol table of this case) -> adv -> primitive"""
+    from vsym import xly
+    xly.install_int_placeholders([env.k0, env.k1])
+    return sdv.resolve(symbols(env)).value_of_any_dependency(None).primitive(app_env())
 
 
 def text_model(s: str):
